@@ -55,20 +55,20 @@ def isMark (n : String) (f : Bool) : IEv → Bool | .mark m g => m == n && f == 
 /-- All (hook, k) pairs whose probe entry is in the list. -/
 def xsOf (seg : List IEv) : List (Nat × Nat) := seg.filterMap fun | .xs h k => some (h, k) | _ => none
 
-/-- (b) a call is never started before its trigger point: its entry is preceded, in the
-    same request, by the start marker of its trigger moment (DESTROY hooks: by nothing —
-    teardown publishes no step markers). -/
-def notBeforeTrigger (hooks : List Hook) (seg : List IEv) : Bool :=
+/-- (b) a call is never started before its trigger point: its entry is preceded — in its own
+    request or an earlier one, for the goroutine that runs the call may be scheduled late — by the
+    start marker of its trigger moment. Teardown publishes no step markers, so once a teardown
+    has begun, leave_<state> and DESTROY hooks are not judged by this clause. `seen` = start
+    markers of earlier requests, `td` = a teardown has begun. -/
+def notBeforeTrigger (hooks : List Hook) (seen : List String) (td : Bool) (seg : List IEv) : Bool :=
   (xsOf seg).all fun (h, k) =>
     match findHook hooks h with
     | none => false
     | some hk =>
-      match hk.trig with
-      | .destroy | .afterDestroy => true
-      | m =>
-        match indexOf? seg (isMark m.name false), indexOf? seg (isXs h k) with
-        | some pm, some px => pm < px
-        | _, _ => false
+      td || seen.contains hk.trig.name ||
+        (match indexOf? seg (isMark hk.trig.name false), indexOf? seg (isXs h k) with
+         | some pm, some px => pm < px
+         | _, _ => false)
 
 /-- position of the last start marker `name` strictly before position `p` (the occurrence of the moment a record belongs to) -/
 def occurrence (seg : List IEv) (name : String) (p : Nat) : Nat :=
@@ -125,20 +125,21 @@ def balanced (tr : ITrace) : Bool :=
   xs.length == xe.length && xs.all (fun p => xe.contains p) &&
     xs.all (fun p => (xs.filter (· == p)).length == 1)
 
-def specC08Segs (hooks : List Hook) : List Req → St → List (List IEv) → Bool
-  | [], _, [] => true
-  | q :: qs, s, seg :: segs =>
+def specC08Segs (hooks : List Hook) : List Req → St → List String → Bool → List (List IEv) → Bool
+  | [], _, _, _, [] => true
+  | q :: qs, s, seen, td, seg :: segs =>
     match obsOf q s seg with
     | none => false
     | some o =>
       -- teardown publishes no step markers: its leave_<state> and DESTROY hooks are judged by weight order only
       let isTeardown := match q with | .teardown .. => true | _ => false
-      momentOrderOk q s seg && (isTeardown || (notBeforeTrigger hooks seg && awaitBarrierSameMoment hooks seg)) &&
-        weightOrderOk hooks seg && specC08Segs hooks qs o.after segs
-  | _, _, _ => false
+      let td' := td || isTeardown
+      momentOrderOk q s seg && notBeforeTrigger hooks seen td' seg && (isTeardown || awaitBarrierSameMoment hooks seg) &&
+        weightOrderOk hooks seg && specC08Segs hooks qs o.after (seen ++ startMarks seg) td' segs
+  | _, _, _, _, _ => false
 
 def specC08 (hooks : List Hook) (reqs : List Req) (tr : ITrace) : Bool :=
-  balanced tr && specC08Segs hooks reqs .STANDBY (segments tr [])
+  balanced tr && specC08Segs hooks reqs .STANDBY [] false (segments tr [])
 
 /-- Excluded hypothesis of the await-barrier theorem (known finding
     `await_weight_not_visited`): no call awaits a point of its own trigger moment with a
